@@ -385,6 +385,10 @@ with parse_jobj (fuel : nat) (acc : list (string * jv)) (ts : list token) {struc
   | _ => None
   end end.
 
+(** parse_jarr hands the same tokens on to parse_jv, so reading a value can spend two units of
+    fuel per token *)
+Definition jv_fuel (fuel : nat) : nat := fuel + fuel.
+
 Fixpoint all_strings (l : list (string * jv)) : option nsmap :=
   match l with
   | [] => Some []
@@ -432,7 +436,7 @@ End Stream.
 Definition parse_stream (v : variant) (fuel : nat) (eof : bool) (ts : list token) : list ent * outcome * nsmap :=
   match ts with
   | TDelim DArrO :: ts1 =>
-    match parse_jv fuel ts1 with
+    match parse_jv (jv_fuel fuel) ts1 with
     | None => ([], OErr, [])
     | Some (JObj ctx, ts2) =>
       if is_context_id ctx then
@@ -488,7 +492,7 @@ End Txn.
 Definition parse_txn (v : variant) (fuel : nat) (ts : list token) : res (list (string * list ent)) :=
   match ts with
   | TDelim DObjO :: _ :: ts1 =>          (* '{' and the (unchecked) "@context" key token *)
-    match parse_jv fuel ts1 with
+    match parse_jv (jv_fuel fuel) ts1 with
     | None => Err
     | Some (JObj ctx, ts2) =>
       match namespaces_of v ctx with
@@ -609,7 +613,7 @@ Fixpoint spec_elements (ns : nsmap) (fuel : nat) (eof : bool) (ts : list token) 
 Definition spec_stream (fuel : nat) (eof : bool) (ts : list token) : list ent * outcome * nsmap :=
   match ts with
   | TDelim DArrO :: ts1 =>
-    match parse_jv fuel ts1 with
+    match parse_jv (jv_fuel fuel) ts1 with
     | Some (JObj ctx, ts2) =>
       if is_context_id ctx then
         match namespaces_of fixed ctx with
